@@ -3,7 +3,7 @@
 use crate::run::{CaseResult, Ctx, Gen, Obs};
 use crate::util::Src;
 
-pub const RULE: &str = "Configurations `arbitrary` and all-features+`arbitrary`. Inputs of length 0..=4096 (layout-aware ones up to about 7.4 kB): all-zero, all-0xFF and every single-byte-repeated pattern (256 patterns x a ladder of lengths; thorough: every length), and proptest byte strings assembled from a weighted mix of uniform bytes, ASCII, well-formed 2/3/4-byte UTF-8 sequences and ill-formed pieces (lone continuation bytes, truncated leads, overlongs, surrogates, 0xF8..0xFF), with length-prefix-like words biased towards capacities. plus layout-aware inputs that follow the order in which the hand-written Arbitrary impls consume data (variant selector, 8-byte little-endian length, text window, lengths of borrowed strings at the end of the input) with the declared length at capacity-3..capacity+7 and the window end before, inside or after a multi-byte character whose remaining bytes follow. Each input is fed to <ctap1::Request>, <ctap2::Request> and <authenticator::Request as Arbitrary>::arbitrary and, separately, ::arbitrary_take_rest. Oracle: no panic/abort; Err is NotEnoughData; Ok(req): a harness-side walker visits every public field - every String<N> and &str passes core::str::from_utf8 on its raw bytes, every String/Bytes/Vec is within its capacity, every borrowed member (&[u8], &str, &[u8; N], &ByteArray<N>) points into the input buffer it borrows from, known formats <= 2, filtered parameters <= 2 with alg in {-7,-8}; Debug-formatting, clone and == clone complete and agree; == against a sibling value generated from the same input with its later bytes inverted is symmetric and agrees with the Debug renderings; dispatching through the C10 recording mock returns. Non-trivial: an Ok result whose input contained a non-ASCII byte (the unchecked UTF-8 path may have been taken) or which holds a bounded field at capacity; distinct by (entry point, input).";
+pub const RULE: &str = "Configurations `arbitrary` and all-features+`arbitrary`. Inputs of length 0..=4096 (layout-aware ones up to about 7.4 kB): all-zero, all-0xFF and every single-byte-repeated pattern (256 patterns x a ladder of lengths; thorough: every length), and proptest byte strings assembled from a weighted mix of uniform bytes, ASCII, well-formed 2/3/4-byte UTF-8 sequences and ill-formed pieces (lone continuation bytes, truncated leads, overlongs, surrogates, 0xF8..0xFF), with length-prefix-like words biased towards capacities. plus layout-aware inputs that follow the order in which the hand-written Arbitrary impls consume data (variant selector, 8-byte little-endian length, text window, lengths of borrowed strings at the end of the input) with the declared length at capacity-3..capacity+7 and the window end before, inside or after a multi-byte character whose remaining bytes follow. Each input is fed to <ctap1::Request>, <ctap2::Request> and <authenticator::Request as Arbitrary>::arbitrary and, separately, ::arbitrary_take_rest. Oracle: no panic/abort; Err is NotEnoughData; Ok(req): a harness-side walker visits every public field - every String<N> and &str passes core::str::from_utf8 on its raw bytes, every String/Bytes/Vec is within its capacity, every borrowed member (&[u8], &str, &[u8; N], &ByteArray<N>) points into the input buffer it borrows from, known formats <= 2, filtered parameters <= 2 with alg in {-7,-8}; Debug-formatting, clone and == clone complete and agree; == against a sibling value generated from the same input with its later bytes inverted, and against values derived by editing public members (a list shortened to a proper prefix / emptied / dropped, optional members dropped), is symmetric and agrees with the Debug renderings, and clone_from between such values produces exact copies in both directions; dispatching through the C10 recording mock returns. Non-trivial: an Ok result whose input contained a non-ASCII byte (the unchecked UTF-8 path may have been taken) or which holds a bounded field at capacity; distinct by (entry point, input).";
 pub const ASSUMPTIONS: &[&str] = &[
     "VendorOperation's derived Arbitrary can yield codes outside 0x40..0x7F; the statement's validity list does not include the vendor range, so it is recorded, not asserted",
     "an invalid str that happens not to crash is only visible to from_utf8 on the raw bytes (and to Miri in the thorough tier)",
@@ -269,6 +269,90 @@ mod with_arb {
         Ok(())
     }
 
+    /// Values DERIVED from a generated request by editing its public members (a list shortened to
+    /// a proper prefix or emptied, an optional member dropped): equality against the original must
+    /// work in both directions and agree with Debug, and `clone_from` onto a value that has MORE
+    /// members set must produce an exact copy (nothing of the old value may survive).
+    fn check_derived(r: &ctap2::Request) -> W {
+        let mut sibs: Vec<ctap2::Request> = vec![];
+        match r {
+            ctap2::Request::MakeCredential(m) => {
+                if let Some(l) = &m.exclude_list {
+                    let mut a = m.clone();
+                    let mut shorter = l.clone();
+                    shorter.pop();
+                    a.exclude_list = Some(shorter);
+                    sibs.push(ctap2::Request::MakeCredential(a));
+                    let mut b = m.clone();
+                    b.exclude_list = Some(Default::default());
+                    sibs.push(ctap2::Request::MakeCredential(b));
+                    let mut c = m.clone();
+                    c.exclude_list = None;
+                    sibs.push(ctap2::Request::MakeCredential(c));
+                }
+                let mut d = m.clone();
+                d.rp.name = None;
+                d.user.name = None;
+                d.user.display_name = None;
+                d.user.icon = None;
+                d.options = None;
+                d.extensions = None;
+                sibs.push(ctap2::Request::MakeCredential(d));
+            }
+            ctap2::Request::GetAssertion(g) => {
+                if let Some(l) = &g.allow_list {
+                    let mut a = g.clone();
+                    let mut shorter = l.clone();
+                    shorter.pop();
+                    a.allow_list = Some(shorter);
+                    sibs.push(ctap2::Request::GetAssertion(a));
+                    let mut b = g.clone();
+                    b.allow_list = Some(Default::default());
+                    sibs.push(ctap2::Request::GetAssertion(b));
+                    let mut c = g.clone();
+                    c.allow_list = None;
+                    sibs.push(ctap2::Request::GetAssertion(c));
+                }
+                let mut d = g.clone();
+                d.extensions = None;
+                d.options = None;
+                d.pin_auth = None;
+                sibs.push(ctap2::Request::GetAssertion(d));
+            }
+            ctap2::Request::CredentialManagement(c) => {
+                let mut d = c.clone();
+                if let Some(p) = d.sub_command_params.as_mut() {
+                    if let Some(u) = p.user.as_mut() {
+                        u.name = None;
+                        u.display_name = None;
+                        u.icon = None;
+                    }
+                }
+                sibs.push(ctap2::Request::CredentialManagement(d));
+                let mut e = c.clone();
+                e.sub_command_params = None;
+                sibs.push(ctap2::Request::CredentialManagement(e));
+            }
+            _ => {}
+        }
+        for s in &sibs {
+            check_pair("derived sibling", r, s)?;
+            check_pair("derived sibling", s, r)?;
+            // clone_from: the target (the richer original) must become an exact copy of the source
+            let mut t = r.clone();
+            t.clone_from(s);
+            if &t != s || format!("{:?}", t) != format!("{:?}", s) {
+                return Err("clone_from(&source) onto a value with more members set did not produce a copy of the source".to_string());
+            }
+            let mut t2 = s.clone();
+            t2.clone_from(r);
+            if &t2 != r || format!("{:?}", t2) != format!("{:?}", r) {
+                return Err("clone_from(&source) onto a value with fewer members set did not produce a copy of the source".to_string());
+            }
+        }
+        Ok(())
+    }
+
     /// the same input with every byte after the first `keep` inverted (same variant selectors,
     /// different contents of equal length): a sibling value to compare with
     fn sibling_input(data: &[u8], keep: usize) -> Vec<u8> {
@@ -426,7 +510,7 @@ mod with_arb {
                 Err(e) => Err(("unexpected-error".into(), format!("{:?}", e))),
             },
             1 => match <ctap2::Request as Arbitrary>::arbitrary(&mut u) {
-                Ok(r) => walk2(&mut w, &r).and_then(|_| check_value("ctap2::Request", &r)).and_then(|_| dispatch2(&r)).map_err(|m| ("invalid-value".to_string(), m)),
+                Ok(r) => walk2(&mut w, &r).and_then(|_| check_value("ctap2::Request", &r)).and_then(|_| check_derived(&r)).and_then(|_| dispatch2(&r)).map_err(|m| ("invalid-value".to_string(), m)),
                 Err(arbitrary::Error::NotEnoughData) => Err(("not-enough-data".into(), String::new())),
                 Err(e) => Err(("unexpected-error".into(), format!("{:?}", e))),
             },
